@@ -91,7 +91,7 @@ def refRun (follow : Follow) (roots : List (Bytes × Option (Node Attr))) (args 
   match parseExpr (args.map Arg.tok') with
   | none => none
   | some l =>
-    let r := refRoots ⟨c.depthFirst, c.minDepth, c.maxDepth, c.follow⟩ c.sorted l roots ⟨[], 0, 0⟩
+    let r := refRoots (refCfg c) c.sorted l roots ⟨[], 0, 0⟩
     some ⟨r.st, r.ret, r.diags⟩
 
 /-- the predicate: stdout equal to the reference, exit status zero iff the reference's is;
